@@ -95,11 +95,13 @@ inline const C19Weights& c19_weights()
 
 inline int c19_stencil_pos(double r, double h, double lo, double hi);
 // ---------------------------------------------------------------------------------------------------------------
-// One numerically differentiated quantity: estimate + uncertainty.  The uncertainty is measured, not assumed:
-//   spread = disagreement of the chosen estimate with its neighbours in the step ladder (truncation indicator),
-//   noise  = a-priori rounding bound of the chosen difference quotient: (value rounding: `ulps` units of 2^-53 relative
-//            error per sample) + (abscissa rounding: the node coordinate is rounded, which moves the sample by
-//            |x| 2^-53 |dv/dx|), both amplified by sum |w_k| / h^p.
+// One numerically differentiated quantity: estimate + uncertainty = spread + rounding bound + measured noise:
+//   spread   = disagreement of the chosen estimate with its finer neighbour in the step ladder (truncation indicator),
+//   rounding = a-priori bound for the chosen difference quotient: (value rounding: `ulps` units of 2^-53 relative
+//              error per sample) + (abscissa rounding: the node coordinate is rounded, which moves the sample by
+//              |x| 2^-53 |dv/dx|), both amplified by sum |w_k| / h^p,
+//   measured = sample noise seen in the 8th differences of the samples (catches cancellation inside the sampled
+//              function, which the relative model misses), amplified the same way.
 struct C19Q {
     ld val = 0, unc = 0;
     int pick = 0;
